@@ -41,7 +41,8 @@ func decRat(d sdk.Dec) *big.Rat {
 func alignMs(t time.Time) time.Time { return t.Truncate(time.Millisecond) }
 
 func runC19(c *fw.Case) {
-	mc := gen.Minters(c.R, "uc4e", 30)
+	mc := gen.Minters(c.R, gen.MintDenom(c.R), 30)
+	mintDenom := mc.Params.MintDenom
 	// pick a period to probe
 	pi := c.R.Intn(len(mc.Schedule.Periods))
 	pStart := mc.Schedule.Start
@@ -158,7 +159,7 @@ func runC19(c *fw.Case) {
 	whale := chain.NewKey("whale")
 	spec := chain.GenesisSpec{Time: gen.Epoch, Minter: minterGenesis(mc.Params, gen.Epoch)}
 	if extra.Sign() > 0 {
-		spec.Accounts = []chain.GenAccount{{Account: authtypes.NewBaseAccount(whale.Addr, nil, 0, 0), Coins: sdk.NewCoins(sdk.NewCoin("uc4e", sdk.NewIntFromBigInt(extra)))}}
+		spec.Accounts = []chain.GenAccount{{Account: authtypes.NewBaseAccount(whale.Addr, nil, 0, 0), Coins: sdk.NewCoins(sdk.NewCoin(mintDenom, sdk.NewIntFromBigInt(extra)))}}
 	}
 	n, err := chain.NewNode(spec)
 	if err != nil {
@@ -188,7 +189,7 @@ func runC19(c *fw.Case) {
 		return
 	}
 	I := decRat(resp.Inflation)
-	S := n.App.BankKeeper.GetSupply(ctx, "uc4e").Amount.BigInt()
+	S := n.App.BankKeeper.GetSupply(ctx, mintDenom).Amount.BigInt()
 	st := n.App.CfeminterKeeper.GetMinterState(ctx)
 	c.Count("probes", 1)
 
@@ -219,21 +220,26 @@ func runC19(c *fw.Case) {
 	}
 	// optional: governance moves the current period's end into the past, then
 	// the query (same block time) must report zero for the ended period.
-	if c.R.Intn(6) == 0 && curIdx >= 0 && curIdx < len(mc.Params.Minters)-1 && zeroProbe == "" {
+	if c.R.Intn(6) == 0 && curIdx >= 0 && curIdx < len(mc.Sorted)-1 && zeroProbe == "" {
 		c19EndedByUpdate(c, n, mc, curIdx, t, t2)
 		return
 	}
-	before := n.App.BankKeeper.GetSupply(n.Ctx(), "uc4e").Amount.BigInt()
+	before := n.App.BankKeeper.GetSupply(n.Ctx(), mintDenom).Amount.BigInt()
 	if _, err := n.BeginBlock(t2); err != nil {
 		c19Panic(c, err, t2)
 		return
 	}
-	after := n.App.BankKeeper.GetSupply(n.Ctx(), "uc4e").Amount.BigInt()
+	after := n.App.BankKeeper.GetSupply(n.Ctx(), mintDenom).Amount.BigInt()
 	minted := new(big.Int).Sub(after, before)
 	st2 := n.App.CfeminterKeeper.GetMinterState(n.Ctx())
 	if st2.SequenceId != st.SequenceId {
 		// t2 was meant to stay inside the same period; ms alignment may not allow it
 		c.Count("period_changed_skipped", 1)
+		return
+	}
+	if S.Sign() == 0 {
+		// no supply: the rate is reported as 0 by definition, nothing to compare
+		c.Count("zero_supply_probes", 1)
 		return
 	}
 	dt := t2.Sub(t)
@@ -287,13 +293,13 @@ func c19EndedByUpdate(c *fw.Case, n *chain.Node, mc gen.MinterConfig, curIdx int
 	}
 	st := n.App.CfeminterKeeper.GetMinterState(n.Ctx())
 	curIdx = int(st.SequenceId) - 1
-	if curIdx >= len(mc.Params.Minters)-1 {
+	if curIdx >= len(mc.Sorted)-1 {
 		return
 	}
 	// new end: strictly after the previous end / start, not after t2
 	prev := mc.Params.StartTime
 	if curIdx > 0 {
-		prev = *mc.Params.Minters[curIdx-1].EndTime
+		prev = *mc.Sorted[curIdx-1].EndTime
 	}
 	if !prev.Before(t2) {
 		return
@@ -303,8 +309,8 @@ func c19EndedByUpdate(c *fw.Case, n *chain.Node, mc gen.MinterConfig, curIdx int
 		d := t2.Sub(prev)
 		newEnd = prev.Add(1 + time.Duration(c.R.Int63n(int64(d))))
 	}
-	minters := make([]*minttypes.Minter, len(mc.Params.Minters))
-	for i, m := range mc.Params.Minters {
+	minters := make([]*minttypes.Minter, len(mc.Sorted))
+	for i, m := range mc.Sorted {
 		cp := *m
 		minters[i] = &cp
 	}
